@@ -217,6 +217,7 @@ def pLine : P Verdict := do
   P.kw "quiet"; let _ ← P.nat
   P.kw "groups"; let _ ← P.nat
   P.kw "stall"; let _ ← P.nat
+  P.kw "restart"; let _ ← P.nat
   P.kw "OUT"
   match (← P.peek) with
   | some "PANIC" =>
